@@ -104,6 +104,14 @@ class CallMixin:
         if tbl is not None:
             self.const_cache[key] = tbl
             return tbl
+        nd = mi.consts[name]
+        if isinstance(nd, ast.Dict) and nd.keys and all(isinstance(k, ast.Constant) and isinstance(k.value, (str, int))
+                                                       for k in nd.keys):
+            # a module-level table with literal keys (values may be objects of external libraries): only membership of a
+            # key is modelled
+            v = V(TPy("keytable"), ("keytable", [k.value for k in nd.keys], f"{mi.name}.{name}"))
+            self.const_cache[key] = v
+            return v
         self.ctx.append((mi, None, None))
         try:
             tmp = State()
@@ -335,6 +343,10 @@ class CallMixin:
         """Method of an opaque object (timer handle, event emitter, asyncio object): assumed to
         return an unconstrained opaque value, to raise nothing and to touch no modelled state."""
         self.note_assumption(f"opaque call .{attr}() assumed effect-free and non-raising")
+        c = self.cur_contract()
+        if c is not None and attr in getattr(c, "pure_opaque", []) and isinstance(recv.t, TOpaque):
+            f = prelude().func("uf_any!" + attr, prelude().Ref, prelude().Ref)
+            return V(ANY, f(recv.z))
         return fresh(ANY, "opaque")
 
     def call_lambda(self, lam, env, ctx, args, st, node):
